@@ -31,6 +31,16 @@ def unitVec (ra dec : α) : V3 α :=
 /-- the embedding of a catalogue row given in degrees (`np.radians` first) -/
 def unitVecDeg (raDeg decDeg : α) : V3 α := unitVec (R.radians raDeg) (R.radians decDeg)
 
+/-- hand fall-backs of the three regenerated columns of the array given to DBSCAN -/
+def vec0Hand (raDeg decDeg : α) : α := (unitVecDeg raDeg decDeg).x
+def vec1Hand (raDeg decDeg : α) : α := (unitVecDeg raDeg decDeg).y
+def vec2Hand (raDeg decDeg : α) : α := (unitVecDeg raDeg decDeg).z
+
+/-- glue: the embedded row, from the three column functions (regenerated `Gen.C19.vec0/1/2` in the driver and
+    in the theorems) -/
+def embedWith (f0 f1 f2 : α → α → α) (raDeg decDeg : α) : V3 α :=
+  { x := f0 raDeg decDeg, y := f1 raDeg decDeg, z := f2 raDeg decDeg }
+
 def dot (u v : V3 α) : α := u.x * v.x + u.y * v.y + u.z * v.z
 
 /-- squared Euclidean distance between two embedded rows -/
